@@ -143,7 +143,7 @@ theorem C07_chunked (c : Codec) (hc : c.RoundTrip) (H : Bytes → Bytes) (s : St
       | .ok bs => .ok bs.flatten) = _
   have hne : (children s (tableLen pre)).isEmpty = false := by
     cases hk : children s (tableLen pre) with
-    | nil => rw [hk] at hlen; simp at hlen; exact absurd hlen.symm hts
+    | nil => rw [hk] at hlen; exact absurd (List.eq_nil_of_length_eq_zero hlen.symm) hts
     | cons _ _ => rfl
   rw [hne, hman, hlen, hpay]
   simp
@@ -190,10 +190,134 @@ theorem C07_stable (c : Codec) (H : Bytes → Bytes) (early : Bool) (s : Store) 
 theorem C07_commit_drains (c : Codec) (H : Bytes → Bytes) (early : Bool) (s : Store)
     (h : (commit c H early s).2 = .ok) : (commit c H early s).1.pending = [] := by
   unfold commit at h ⊢
-  split
-  · rename_i he; simpa using he
-  · split
-    · rename_i e he; rw [he] at h; simp at h
+  split at h
+  · rename_i he; rw [if_pos he]; simpa using he
+  · rename_i he
+    rw [if_neg he]
+    split at h
+    · simp at h
     · rfl
+
+
+/-- **C07 (commit is total — repaired code).**  With `data_end` advanced right after each payload write
+    (fixes/C07.diff), `commit` answers Ok in every reachable state whose pending puts are well formed
+    (stored pieces ≤ MAX_FRAME_BYTES, a chunked document carries search text) — in particular for puts
+    WITHOUT search text and mime, the case in which `apply_records` reads the payload it just wrote. -/
+theorem C07_commit_total (c : Codec) (hc : c.RoundTrip) (H : Bytes → Bytes) (s : Store)
+    (bl : List (Nat × PutArgs)) (pend : List PutArgs) (hi : Inv c H s bl pend) (hok : ∀ a ∈ pend, PutOk c a) :
+    (commit c H true s).2 = .ok ∧ (commit c H true s).1.pending = [] := by
+  have h : (commit c H true s).2 = .ok := by
+    unfold commit
+    split
+    · rfl
+    · obtain ⟨s', hs⟩ := applyRecords_total hc hi hok
+      rw [hs]
+  exact ⟨h, C07_commit_drains c H true s h⟩
+
+/-- **C07 (open is total — repaired code).**  The WAL replay of `open` accepts the same records. -/
+theorem C07_open_total (c : Codec) (hc : c.RoundTrip) (H : Bytes → Bytes) (s : Store) (ft : Nat)
+    (bl : List (Nat × PutArgs)) (pend : List PutArgs) (hi : Inv c H s bl pend) (hok : ∀ a ∈ pend, PutOk c a) :
+    (openStore c H true s ft).2 = .ok := by
+  have hbound : ∀ f ∈ s.frames, f.len ≠ 0 → f.off + f.len ≤ s.payloadEnd := by
+    intro f hf hz
+    rw [hi.frames] at hf
+    obtain ⟨g, hg, rfl⟩ := List.mem_map.mp hf
+    exact (hi.stored g hg).bound hz
+  have hfe : frameEnds s.frames ≤ s.payloadEnd := by
+    rw [frameEnds_eq]; exact foldl_endStep_le _ _ _ (Nat.zero_le _) hbound
+  have hi1 : Inv c H { s with dataEnd := max ft (frameEnds s.frames), payloadEnd := frameEnds s.frames } bl pend := by
+    refine ⟨hi.frames, ?_, Nat.le_max_right _ _, Nat.le_trans hfe hi.pe_file, hi.pending⟩
+    intro g hg
+    have hg' := hi.stored g hg
+    refine ⟨hg'.len, hg'.bytes, ?_⟩
+    intro hz
+    show g.1.off + g.1.len ≤ frameEnds s.frames
+    rw [frameEnds_eq]
+    apply foldl_endStep_ge_mem _ _ _ _ hz
+    rw [hi.frames]
+    exact List.mem_map.mpr ⟨g, hg, rfl⟩
+  unfold openStore
+  dsimp only
+  split
+  · rfl
+  · obtain ⟨s', hs⟩ := applyRecords_total hc hi1 hok
+    have hs' : applyRecords c H true { s with dataEnd := max ft (frameEnds s.frames), payloadEnd := frameEnds s.frames } s.pending = .ok s' := hs
+    rw [hs']
+
+/-- **C07 (end to end, repaired code).**  Any history of well-formed puts, commits, reopens and crashes,
+    followed by a commit: the commit answers Ok, nothing is pending, and the committed layout lists
+    EVERY put of the history in order — so each of them reads back by `C07_whole` / `C07_chunked`. -/
+theorem C07_fidelity (c : Codec) (hc : c.RoundTrip) (H : Bytes → Bytes) (ops : List Op)
+    (hok : ∀ a ∈ putsOf ops, PutOk c a) :
+    (commit c H true (run c H true {} ops)).2 = .ok ∧
+    ∃ bl, Inv c H (commit c H true (run c H true {} ops)).1 bl [] ∧ bl.map Prod.snd = putsOf ops := by
+  obtain ⟨bl, pend, h1, h2, _⟩ := C07_history c H true ops
+  have hpend : ∀ a ∈ pend, PutOk c a := fun a ha => hok a (by rw [← h2]; exact List.mem_append_right _ ha)
+  obtain ⟨hc1, hc2⟩ := C07_commit_total c hc H _ bl pend h1 hpend
+  refine ⟨hc1, ?_⟩
+  obtain ⟨bl', pend', k1, k2, _⟩ := commit_inv true h1
+  obtain ⟨q, hq, _⟩ := k1.pending
+  have hp' : pend' = [] := (pendRecs_nil_iff c q pend').mp (by rw [← hq]; exact hc2)
+  subst hp'
+  exact ⟨bl', k1, by rw [← h2, ← k2]; simp⟩
+
+/-! ## The code before the repair, and non-vacuity -/
+
+/-- a trivial codec with the round-trip property: "compression" prefixes a marker byte -/
+def markCodec : Codec :=
+  { enc := fun _ p => 0x28 :: p
+    dec := fun s => match s with | 0x28 :: p => some p | _ => none }
+
+theorem markCodec_roundTrip : markCodec.RoundTrip := fun _ _ => rfl
+
+def h0 : Bytes → Bytes := fun b => [UInt8.ofNat b.length]
+
+/-- the witness: library defaults with `auto_tag(false)`, three control bytes — no search text, no mime -/
+def witnessPut : PutArgs := { payload := [1, 2, 3], search := none, mime := none }
+
+/-- **C07 (the code before the repair).**  With `data_end` advanced only after the whole batch, the put of
+    three bytes without search text and mime is acknowledged, the commit fails with "payload extends past
+    data region", the record stays pending, and every later open (WAL replay) fails the same way. -/
+theorem C07_unrepaired_commit_fails :
+    (step markCodec h0 false {} (.put witnessPut false)).2 = .ok ∧
+    (step markCodec h0 false (step markCodec h0 false {} (.put witnessPut false)).1 .commit).2 = .err .pastData ∧
+    (step markCodec h0 false (step markCodec h0 false {} (.put witnessPut false)).1 (.crash 0)).2 = .err .pastData ∧
+    (step markCodec h0 false (step markCodec h0 false {} (.put witnessPut false)).1 .commit).1.pending ≠ [] := by
+  decide
+
+def readOpt : Except Err Bytes → Option Bytes
+  | .ok b => some b
+  | .error _ => none
+
+def exFixed : Store := run markCodec h0 true {} [.put witnessPut false, .commit, .reopen 40]
+
+/-- the same history on the repaired code: committed, read back exactly -/
+example :
+    exFixed.pending = [] ∧ exFixed.frames.map (fun f => readOpt (canonicalBytes markCodec exFixed f)) = [some [1, 2, 3]] ∧
+      exFixed.frames.map (fun f => readOpt (blobReader markCodec exFixed f)) = [some [1, 2, 3]] := by
+  decide
+
+/-- non-vacuity of `C07_whole` / `C07_chunked` / `C07_fidelity`: a history with a whole binary put, a
+    whole text put (stored "compressed"), a chunked put and a put after a reopen satisfies the
+    hypotheses, and evaluation agrees with the theorems -/
+def exChunked : PutArgs :=
+  { payload := [0x61, 0x62, 0x63, 0x64], plan := some [[0x61, 0x62], [0x63, 0x64]], rawPlan := true }
+def exHistory : List Op :=
+  [.put { payload := [0xff, 0x00], mime := some false } false, .put { payload := [0x68, 0x69] } false, .commit,
+   .put exChunked true, .reopen 50, .put witnessPut false, .crash 60]
+
+example : ∀ a ∈ putsOf exHistory, PutOk markCodec a := by
+  intro a ha
+  simp only [exHistory, putsOf, List.mem_cons, List.not_mem_nil, or_false] at ha
+  rcases ha with rfl | rfl | rfl | rfl <;> exact ⟨by decide, by decide, by decide⟩
+
+def exState : Store := run markCodec h0 true {} exHistory
+
+example :
+    exState.pending = [] ∧
+    exState.frames.map (fun f => readOpt (canonicalBytes markCodec exState f)) =
+      [some [0xff, 0x00], some [0x68, 0x69], some [0x61, 0x62, 0x63, 0x64], some [0x61, 0x62], some [0x63, 0x64], some [1, 2, 3]] ∧
+    exState.frames.map (·.parent) = [none, none, none, some 2, some 2, none] := by
+  decide
 
 end Mv.Content
